@@ -186,6 +186,34 @@ def gen_c09(seed, index):
     return {"cfg": scn["cfg"], "ops": scn["ops"] + tail, "queries": g.ops}
 
 
+def gen_c09_large(seed, index):
+    """one query batch of 2^k + 1 rows on a randomised policy: `predict` and `predict_expectations` must see the
+    same draws however many rows there are (block-wise processing on one side only would change them)"""
+    rng = random.Random("%s/C09-large/%s" % (seed, index))
+    kinds = ["lingreedy", "lints", "lingreedy", "lints", "greedy", "thompson", "softmax", "linucb"]
+    lpk = kinds[index % len(kinds)]
+    lp = G.gen_lp(rng, lpk)
+    if "eps" in lp:
+        lp["eps"] = 0.5
+    npk = None if lpk in G.LIN_KINDS or index % 3 else rng.choice(["radius", "knn", "clusters"])
+    arms = [1, 2, 3, 4]
+    d = 2
+    npc = G.gen_np(rng, npk, len(arms), d)
+    if npc and npc["k"] == "radius":
+        npc["probs"] = None
+        npc["r"] = 3.0
+    n = 16
+    train_arms = arms[:3]                      # the last arm never receives data
+    fit = {"op": "fit", "d": [rng.choice(train_arms) for _ in range(n)],
+           "r": [rng.choice([0, 1]) for _ in range(n)],
+           "c": [[float(rng.randint(0, 4)) for _ in range(d)] for _ in range(n)] if (npk or lpk in G.LIN_KINDS) else None}
+    m = rng.choice([1025, 1025, 2049, 1024, 513])
+    contextual = fit["c"] is not None
+    q = {"op": "pexp", "c": [[float(rng.randint(0, 4)) for _ in range(d)] for _ in range(m)] if contextual else None}
+    cfg = {"lp": lp, "np": npc, "arms": arms, "seed": rng.randint(0, 10 ** 6), "binz": None, "n_jobs": 1}
+    return {"cfg": cfg, "ops": [fit], "queries": [q]}
+
+
 def argmax_first(d):
     best = None
     for k, v in d:
